@@ -236,7 +236,7 @@ func sizeAgreementRule(P *Program, R *Report) {
 			"LvCommit": "Ln+3*Lstatzk+2*Lh+Lm+4", "LvPrime": "Ln+Lstatzk", "LvPrimeCommit": "Ln+2*Lstatzk+Lh",
 		}
 		for f, w := range spec {
-			R.decide(rule, "gabikeys.MakeDerivedParameters:"+f, "derived parameter "+f+" = "+w, got[f] == parseAffine(w).String(), "got "+got[f], P.Pos(md.Pos()))
+			R.decide(rule, "gabikeys.MakeDerivedParameters:"+f, "derived parameter "+f+" = "+w, parseAffine(strings.ReplaceAll(got[f], "base.", "")).String() == parseAffine(w).String(), "got "+got[f], P.Pos(md.Pos()))
 		}
 	}
 }
